@@ -185,6 +185,15 @@ EXTRA9 = {
     "C16": "Status requests whose answers are lost are re-sent with the same number in the threaded wire session.",
     "C19": "Single-snapshot files are also loaded, the simulator's block changed, and loaded again.",
 }
+EXTRA10 = {
+    "C01": "Two fault-free transfers of the same range with the client's copy changed in between (partial update, re-initialisation, reset).",
+    "C05": "A transient socket error is reported to the protocol object in every awaitable history; exceptions out of the library's installs are verdicts.",
+    "C06": "The refresh loop's cycle start is a logged event that must find the gate open (TBg).",
+    "C07": "A deviation from TLC's order-flip witness is decided by the rest of the check.",
+    "C10": "A reset that is interrupted (caller gives up, client handler raises) followed by a second reset.",
+}
+for _k, _v in EXTRA10.items():
+    EXTRA[_k] = (EXTRA.get(_k, "") + " " + _v).strip()
 for _k, _v in EXTRA9.items():
     EXTRA[_k] = (EXTRA.get(_k, "") + " " + _v).strip()
 for _k, _v in EXTRA7.items():
